@@ -823,6 +823,8 @@ def run(ctx):
         fmts = [v[ctx.seed % len(v)] for v in by.values()]
     f2, jobs = stream_public(ctx, consts, fmts, alive)
     found |= f2
+    from .. import c14stdio                          # (round 9 covgap) sf_open ("-"): psf_set_stdio as a route (read 0 / write 1 / pipe on 0 / RDWR refused)
+    found |= c14stdio.run(ctx, jobs)
     from .. import foreign                           # stream F: valid files the library's writers never produce, through every route
     found |= foreign.run(ctx, consts, jobs)
     found |= stream_gate(ctx, consts, jobs)
